@@ -552,6 +552,7 @@ def run(ctx):
     override_matching(ctx)
     signature_equivalence(ctx)
     overridden_virtuals_are_replaced(ctx)
+    convertibility_through_bases(ctx)
 
     # ------------------------------------------------------------ R10.2
     fd = db.fn("InterrogateBuilder::define_struct_type")
@@ -761,3 +762,22 @@ def overridden_virtuals_are_replaced(ctx):
         ctx.ob("R10.8", "get_virtual_funcs|erase#%d|overrider-marked-virtual" % i, ok, f.loc(e),
                "`%s` is %sfollowed by marking the overriding member SC_virtual before the scan moves on" % (show(e)[:30], "" if ok else "NOT always "))
     ctx.floor("R10.8", "erase sites in get_virtual_funcs", len(erases), 2)
+
+
+def convertibility_through_bases(ctx):
+    """R10.9: CPPStructType::is_convertible_to(T) answers yes when the generic test, a conversion operator's type or a
+    public base IS convertible to T.  Every `return true` of the function must sit on the TRUE edge of such a nested
+    is_convertible_to() answer.  (F-C10h: the base loop returned true for the first base that is NOT convertible; the
+    predicate feeds __is_convertible_to, is_constructible and the covariant-return test of match_virtual_override.)"""
+    db = ctx.db
+    ctx.rule("R10.9", "in CPPStructType::is_convertible_to every `return true` is reachable only through the true edge of a nested is_convertible_to(...) call")
+    f = db.fn("CPPStructType::is_convertible_to")
+    rets = [r for r in f.walk() if r.get("k") == "ret" and const_int(r.get("e")) == 1]
+    if not rets:
+        ctx.broken("R10.9: CPPStructType::is_convertible_to has no `return true`")
+    edges = G.edges_where(f, G.pred_true("is_convertible_to"))
+    for i, r in enumerate(rets):
+        ok = bool(edges) and G.gated(f, r, edges)
+        ctx.ob("R10.9", "CPPStructType::is_convertible_to|return-true#%d|behind-a-positive-answer" % i, ok, f.loc(r),
+               "`return true` is %sbehind a nested is_convertible_to() that answered yes" % ("" if ok else "NOT "))
+    ctx.floor("R10.9", "`return true` sites", len(rets), 3)
